@@ -135,6 +135,8 @@ func VerifHarness_C14_production() {
 	od.MinNodes, od.MaxNodes = 0, 5
 	ol := groupOpts(1)
 	ol.MinNodes, ol.MaxNodes = 0, 5
+	// only the exact name "default" makes a group the catch-all group
+	ol.Name = []string{"g1", "Default", " default "}[verifChoice("labelledGroupName", 3)]
 	var gd, gl int
 	if order == 0 {
 		gd = w.addGroup(od, 0, 5, 0)
